@@ -21,6 +21,8 @@
 //!   M     `Resolution::package_map`
 //!   RL    `resolve_with_lock` with the lock file just produced: `same` or the new assignment
 //!   RK    `LockFile::new` on the re-resolution: `same` / `diff`
+//! A line `LAWS V:<versions> Q:<requirements>` instead prints the implementation's own tables of
+//! `cmp`, `==`, `BucketVersion::from`, `VersionReq::matches`, `BucketVersion::contains` on the pool.
 //! Everything that touches the package crate runs under `catch_unwind`; scratch directories are
 //! created under $TMPDIR (default /tmp) and removed after each universe.
 use nickel_lang_core::identifier::Ident;
@@ -219,28 +221,31 @@ fn setup(case: &Case, dir: &Path) -> Result<Env, String> {
     let config = Config::new().map_err(|e| format!("{e:?}"))?.with_cache_dir(dir.join("cache"));
     std::fs::create_dir_all(&config.cache_dir).map_err(|e| e.to_string())?;
     let mut commits = HashMap::new();
-    {
-        for (i, pv) in case.index.iter().enumerate() {
-            // One handle per saved package, as package/tests/util.rs does: a handle that saves a
-            // third version of the same package writes its stale cached file back and loses the
-            // second one (PackageIndexCache::save does not update `package_files`).
-            let mut idx = PackageIndex::exclusive(config.clone()).map_err(|e| format!("{e:?}"))?;
-            let index::Id::Github { org, name, path } = id_of(&pv.pkg);
-            let commit = commit_for(i);
-            commits.insert(commit.to_string(), format!("{}@{}", pv.pkg, pv.ver));
-            let pkg = index::Package {
-                id: PreciseId::Github { org, name, path, commit },
-                version: pv.ver.clone(),
-                minimal_nickel_version: SemVer::new(1, 0, 0),
-                dependencies: pv.deps.iter().map(|d| (Ident::new(&d.name), index_dep(d))).collect(),
-                authors: vec![],
-                description: String::new(),
-                keywords: vec![],
-                license: String::new(),
-            };
-            idx.save(pkg).map_err(|e| format!("save: {e:?}"))?;
-        }
+    // The index files are written directly, one json line per version in the crate's own
+    // serialisation format (`index::serialize::PackageFormat`), in the order of the universe;
+    // they are read back by `PackageIndex::shared` (index load) like a downloaded index.
+    for (i, pv) in case.index.iter().enumerate() {
+        let id = id_of(&pv.pkg);
+        let index::Id::Github { org, name, path } = id.clone();
+        let commit = commit_for(i);
+        commits.insert(commit.to_string(), format!("{}@{}", pv.pkg, pv.ver));
+        let pkg = index::Package {
+            id: PreciseId::Github { org, name, path, commit },
+            version: pv.ver.clone(),
+            minimal_nickel_version: SemVer::new(1, 0, 0),
+            dependencies: pv.deps.iter().map(|d| (Ident::new(&d.name), index_dep(d))).collect(),
+            authors: vec![],
+            description: String::new(),
+            keywords: vec![],
+            license: String::new(),
+        };
+        let file = config.index_dir.join(id.path());
+        std::fs::create_dir_all(file.parent().unwrap()).map_err(|e| e.to_string())?;
+        let line = serde_json::to_string(&index::serialize::PackageFormat::from(pkg)).map_err(|e| e.to_string())?;
+        let mut f = std::fs::OpenOptions::new().create(true).append(true).open(&file).map_err(|e| e.to_string())?;
+        writeln!(f, "{line}").map_err(|e| e.to_string())?;
     }
+    std::fs::create_dir_all(&config.index_dir).map_err(|e| e.to_string())?;
     Ok(Env { dir: dir.to_owned(), config, commits })
 }
 
@@ -326,7 +331,10 @@ fn describe(res: &Resolution, manifest: &ManifestFile, root: &[Dep], env: &Env, 
             resolved.push((pkg_of(id), v.clone()));
         }
     }
-    resolved.sort();
+    // ordered by the components, not by `Ord for SemVer` (the output order must not depend on it)
+    resolved.sort_by(|a, b| {
+        (&a.0, a.1.major, a.1.minor, a.1.patch, &a.1.pre).cmp(&(&b.0, b.1.major, b.1.minor, b.1.patch, &b.1.pre))
+    });
     let mut sds: Vec<String> = vec![];
     for (pkg, v) in &resolved {
         let id = id_of(pkg);
@@ -461,6 +469,52 @@ fn run_case(case: &Case, dir: &Path) -> String {
     out
 }
 
+/// `LAWS V:<v>,<v>,... Q:<req>,<req>,...` — the implementation's own comparison and matching of
+/// versions on a pool, for the law check (cmp is a total order consistent with ==) and for the
+/// comparison with the model:
+///   cmp   one row per version, `<`, `=`, `>` for `a.cmp(b)`
+///   eq    one row per version, `1`/`0` for `a == b`
+///   bt    number of keys of a `BTreeMap<SemVer, ()>` filled with the pool (the index cache)
+///   sd    the pool after `sort(); dedup()` (Resolution::index_packages)
+///   bk    `BucketVersion::from(v)` of every version
+///   m     one row per requirement, `VersionReq::matches(v)`
+///   bc    one row per requirement, `BucketVersion::from(req).contains(v)`
+fn laws(line: &str) -> String {
+    use nickel_lang_package::resolve::BucketVersion;
+    let mut vs: Vec<SemVer> = vec![];
+    let mut qs: Vec<VersionReq> = vec![];
+    for sec in line.split(' ').skip(1) {
+        if let Some(b) = sec.strip_prefix("V:") {
+            vs = b.split(',').filter(|x| !x.is_empty()).map(parse_ver).collect();
+        } else if let Some(b) = sec.strip_prefix("Q:") {
+            qs = b.split(',').filter(|x| !x.is_empty()).map(parse_req).collect();
+        }
+    }
+    let row = |f: &dyn Fn(&SemVer) -> char| -> String { vs.iter().map(f).collect() };
+    let cmp: Vec<String> = vs
+        .iter()
+        .map(|a| row(&|b| match a.cmp(b) { std::cmp::Ordering::Less => '<', std::cmp::Ordering::Equal => '=', std::cmp::Ordering::Greater => '>' }))
+        .collect();
+    let eq: Vec<String> = vs.iter().map(|a| row(&|b| if a == b { '1' } else { '0' })).collect();
+    let bt: BTreeMap<SemVer, ()> = vs.iter().map(|v| (v.clone(), ())).collect();
+    let mut sd = vs.clone();
+    sd.sort();
+    sd.dedup();
+    let bk: Vec<String> = vs.iter().map(|v| BucketVersion::from(v.clone()).to_string()).collect();
+    let m: Vec<String> = qs.iter().map(|q| row(&|v| if q.matches(v) { '1' } else { '0' })).collect();
+    let bc: Vec<String> = qs.iter().map(|q| { let b = BucketVersion::from(q.clone()); row(&|v| if b.contains(v) { '1' } else { '0' }) }).collect();
+    format!(
+        "laws cmp={} eq={} bt={} sd={} bk={} m={} bc={}",
+        cmp.join("/"),
+        eq.join("/"),
+        bt.len(),
+        sd.iter().map(|v| v.to_string()).collect::<Vec<_>>().join(","),
+        bk.join(","),
+        m.join("/"),
+        bc.join("/")
+    )
+}
+
 fn main() {
     std::panic::set_hook(Box::new(|_| {}));
     if std::env::var_os("HOME").is_none() {
@@ -479,6 +533,9 @@ fn main() {
         let dir = base.join(n.to_string());
         let _ = std::fs::remove_dir_all(&dir);
         let r = catch_unwind(AssertUnwindSafe(|| {
+            if line.starts_with("LAWS ") {
+                return laws(&line);
+            }
             let case = parse_case(&line);
             run_case(&case, &dir)
         }))
